@@ -29,6 +29,17 @@ CHECKS = {
                 "paper argument; private (_) methods and external attribute mutation outside the claim",
         "technique": "symbolic execution of the Python source (symbolic strings/ints, solver-chosen fault schedule) + per-path obligations, counterexample replay",
     },
+    "C05": {
+        "text": "Part A: EBB3.command/query executed on symbolic request strings (symbolic letters, arguments, surrounding whitespace; 1/2-letter "
+                "shapes enumerated) against a port scripted by symbolic variables (E blank reads, then a symbolic reply line / a raised "
+                "SerialException or OSError / nothing; or a failing write): written bytes, number of reads consumed (alignment), return "
+                "value and error latch are proved equal to the restated framing rule. Part B: every public request method is executed "
+                "against a conforming board with each fault kind injected at a solver-chosen request: nothing may escape, the failure "
+                "must be latched and a failure value returned.",
+        "note": "ASCII universe; reply length and E bounded (quick: E in [0,2]u[24,27], reply 1/4/6 chars; thorough: E in [0,27], reply 1..8); "
+                "RB/R/BL exempt from exception latching (deliberate in the code); malformed data after a correct name outside the claim",
+        "technique": "symbolic execution of the Python source on symbolic strings with a solver-scripted fake port + SMT obligations per path, counterexample replay",
+    },
     "C06": {
         "text": "Every legacy helper (through ebb_serial.command/query) and every EBB3-layer helper is executed with symbolic "
                 "integer arguments and each optional argument absent/present against a conforming fake port; formatting yields "
